@@ -86,5 +86,23 @@ func checkDefs() map[string]CheckDef {
 		BoundsText:  "as C09 for the inductive step (one arbitrary operation from an arbitrary invariant-satisfying machine: unbounded history); BMC: 9 milestone states reached through the real API (fresh, initialised, own-signed, fully signed init, funding, acting, update staged, peer-signed, fully signed update) followed by all sequences of k arbitrary operations (k=1 quick, 2 thorough), re-verifying the current transaction with channel.Verify after every step",
 		Outside:     []string{"ActionMachine", "more than 2 participants (3 only in the base obligation)", "participants whose address map is empty"},
 	})
+	pbAssume := "google.golang.org/protobuf proto.Marshal/Unmarshal and the generated registration code are outside the claim: they are modelled by their contract Unmarshal(Marshal(m)) = m (opaque handles); the From*/To* conversions, the serializer's type switches and the length-prefixed framing are executed as they are"
+	add(CheckDef{
+		ID: "C14",
+		Obligations: []Obligation{
+			{Pkg: "internal/verifh/c14", Harness: "VerifC14BigInt", Quick: map[string]int{"maxLen": 129}, TV: 30},
+			{Pkg: "internal/verifh/c14", Harness: "VerifC14BigIntPair", Quick: map[string]int{"K": 2}, Thor: map[string]int{"K": 3}, TV: 20},
+			{Pkg: "internal/verifh/c14", Harness: "VerifC14Values", Quick: map[string]int{"K": 1, "exact": 1, "maxS": 1, "maxA": 1}, Thor: map[string]int{"exact": 0, "maxS": 2, "maxA": 2}, TV: 30},
+			{Pkg: "internal/verifh/c14", Harness: "VerifC14Messages", Quick: map[string]int{"K": 1, "exact": 1, "maxS": 1}, Thor: map[string]int{"deep": 1, "maxS": 2}, TV: 40},
+			{Pkg: "internal/verifh/c14", Harness: "VerifC14Envelopes", Quick: map[string]int{"K": 1, "exact": 1, "envKinds": 3}, Thor: map[string]int{"envKinds": 4}, TV: 15},
+			{Pkg: "internal/verifh/c14", Harness: "VerifC14Protobuf", Quick: map[string]int{"K": 1, "exact": 1, "maxS": 1}, Thor: map[string]int{"deep": 1, "maxS": 2}, TV: 40},
+		},
+		Assumptions: append(append([]string{}, commonAssumptions...), pbAssume,
+			"reason strings are ASCII (protobuf refuses text fields that are not valid UTF-8; found by translator validation against the real protobuf library)",
+			"time.Time (ping/pong) is modelled as its UnixNano value; wall-clock/monotonic/location parts are outside",
+			"apps carried in states/parameters are registered with the app registry before decoding (as a running client does)"),
+		BoundsText: "BigInt codec: every byte length 0..129 (limit 128 exact), symbolic content; pairs of big integers up to K bytes each; value types: Balances (0..2 x 1..2), SubAlloc (0..2 balances; index map nil/0..2), Allocation/State (1 asset [2 thorough], 1..2 participants, 0..1 sub-allocations [2 thorough] with nil/empty/full index map, NoApp or MockApp with symbolic definition and data), Params (2..3 participants, symbolic addresses/nonce/duration/flags/aux bytes), Transaction (absent state or any subset of 64-byte signatures), wallet and wire address map arrays (0..2 entries); all 17 message types through wire.EncodeMsg/DecodeMsg with 3 arbitrary trailing bytes, strings of 0..2 bytes, AuthResponse signatures 0..3 bytes; two envelopes back to back through the perunio envelope serializer; all 17 message types through the protobuf envelope serializer, compared field by field and re-encoded natively. Amounts exactly 1 byte in quick, 0..1 bytes in thorough (every length is covered by the BigInt obligations).",
+		Outside:    []string{"proto.Marshal/Unmarshal", "larger dimensions", "participants with several addresses per map"},
+	})
 	return defs
 }
